@@ -46,7 +46,7 @@ def gen(rnd, big=False):
                     rhs = (("n", rnd.randrange(nnt)), ("t", rnd.randint(1, nt))) if rnd.random() < 0.5 else (("n", rnd.randrange(nnt)), ("n", rnd.randrange(nnt)))
                 else:
                     rhs = tuple((("t", rnd.randint(1, nt)) if rnd.random() < 0.5 else ("n", rnd.randrange(nnt))) for _ in range(rnd.randint(1, 3)))
-                if (a, rhs) not in rules:
+                if (a, rhs) not in rules or rnd.random() < 0.25:   # duplicated alternatives are legal (and ambiguous)
                     rules.append((a, rhs))
         return nnt, nt, rules
     nnt = rnd.randint(1, 3)
@@ -56,7 +56,7 @@ def gen(rnd, big=False):
         for _ in range(rnd.randint(1, 3)):
             k = rnd.choice([0, 1, 1, 2, 2, 3, 3, 4, 5])
             rhs = tuple((("t", rnd.randint(1, nt)) if rnd.random() < 0.55 else ("n", rnd.randrange(nnt))) for _ in range(k))
-            if (a, rhs) not in rules:
+            if (a, rhs) not in rules or rnd.random() < 0.25:   # duplicated alternatives are legal (and ambiguous)
                 rules.append((a, rhs))
     if rnd.random() < 0.15:
         rules = [r for r in rules if r[0] != nnt - 1] or rules
